@@ -35,6 +35,7 @@ fn main() {
         "C23" => props::c23::run(&mut ctx),
         "C24" => props::c24::run(&mut ctx),
         "C25" => props::c25::run(&mut ctx),
+        "C29" => props::c29::run(&mut ctx),
         "C30" => props::c30::run(&mut ctx),
         "C34" => props::c34::run(&mut ctx),
         "C38" => props::c38::run(&mut ctx),
